@@ -10,4 +10,16 @@ if [ ! -x bin/dhcpverif ] || [ -n "$(find checker -newer bin/dhcpverif -name '*.
   (cd checker && go build -o ../bin/dhcpverif .) || { echo "ERROR: cannot build analyser"; exit 2; }
 fi
 id="$1"; tier="${2:-quick}"; shift; shift 2>/dev/null || true
-exec bin/dhcpverif check "$id" --tier "$tier" --repo "${VERIF_REPO:-/repo}" --verif "$(pwd)" "$@"
+bin/dhcpverif check "$id" --tier "$tier" --repo "${VERIF_REPO:-/repo}" --verif "$(pwd)" "$@"
+rc=$?
+# Undecided fails: an analyser that terminates abnormally (a fatal runtime error cannot be recovered inside the
+# process) has decided nothing, which is reported as a violation of the property being checked.
+if [ "$rc" -ne 0 ] && [ "$rc" -ne 1 ]; then
+  mkdir -p evidence/replay
+  rp="$(pwd)/evidence/replay/$id-analyser-terminated.json"
+  printf '{"property":"%s","obligation":{"rule":"%s-analyser","key":"analyser terminated abnormally (exit %s): nothing was decided"}}\n' "$id" "$id" "$rc" > "$rp"
+  echo "VIOLATION property=$id replay=$rp"
+  echo "    UNDECIDED rule=$id-analyser: the analyser terminated abnormally (exit $rc) on this tree; no obligation was decided"
+  exit 1
+fi
+exit "$rc"
